@@ -483,4 +483,9 @@ theorem uniaxialIndex_hasDerivAt (no ne θ : ℝ) (hno : 0 < no) (hne : 0 < ne) 
   ring
 
 
+/-- the clamp of the Float-robust spec form is inactive over ℝ -/
+theorem specInvSqClamped_eq (B C : ℝ) (hd : 0 ≤ B * B - 4 * C) (pol : Pol) :
+    specInvSqClamped B C pol = specInvSq B C pol := by
+  simp only [specInvSqClamped, specInvSq, lit_four, lit_zero, if_neg (not_lt.mpr hd)]
+
 end Spdc.Index
